@@ -43,14 +43,17 @@ Definition add (now jitter : Z) (r : record) (c : cache) : cache * list sigsnap 
     let tr := triggers now jitter (r_ttl r) in
     let es := kept ++ [mkEntry r tr] in
     let t0 := hd now tr in
-    let rearm := match c_next c with None => true | Some n => t0 <? n end in
+    let rearm := match c_next c with None => cache_rearm true t0 0 now | Some n => cache_rearm false t0 n now end in
     if rearm then (mkCache es (Some t0) (timer_start now (t0 - now)), sg)
     else (mkCache es (c_next c) (c_timer c), sg).
 
 (* whether addRecord (re)starts the timer: the condition guarding timer.start() *)
 Definition add_rearms (now jitter : Z) (r : record) (c : cache) : bool :=
   negb (r_ttl r =? 0)%N &&
-  match c_next c with None => true | Some n => hd now (triggers now jitter (r_ttl r)) <? n end.
+  match c_next c with
+  | None => cache_rearm true (hd now (triggers now jitter (r_ttl r))) 0 now
+  | Some n => cache_rearm false (hd now (triggers now jitter (r_ttl r))) n now
+  end.
 
 Definition lookup (name : bstr) (type : N) (c : cache) : list record :=
   filter (cache_lookup_match name type) (map e_rec (c_entries c)).
@@ -59,7 +62,7 @@ Definition lookup (name : bstr) (type : N) (c : cache) : list record :=
 Fixpoint drop_passed (now : Z) (tr : list Z) : bool * list Z :=
   match tr with
   | [] => (false, [])
-  | t :: tr' => if t <=? now then (true, snd (drop_passed now tr')) else (false, tr)
+  | t :: tr' => if cache_trigger_passed t now then (true, snd (drop_passed now tr')) else (false, tr)
   end.
 
 Definition min_opt (a : option Z) (t : Z) : option Z :=
